@@ -5,7 +5,7 @@
     the number of files) and "acyclic graphs load in source order" are not proved as theorems -- the parser model runs
     on fuel and the graphs stream enumerates import graphs (all 65536 on 4 files in the thorough tier). *)
 From Pakhi Require Import Base Float64 Syntax Tables Lexer Parser.
-From Pakhi.Proofs Require Import Modules.
+From Pakhi.Proofs Require Import Modules ImportChain.
 Local Open Scope nat_scope.
 
 Theorem C15_cyclic_import_rejected_before_reading : forall fs cwd main_path alias module_path s1,
@@ -60,3 +60,28 @@ Print Assumptions C15_import_statement.
 Theorem C15_extension : module_ext = [46; 112; 97; 107; 104; 105]%N.
 Proof. vm_compute. reflexivity. Qed.
 Print Assumptions C15_extension.
+
+(* every module an import statement is nested in is on its chain: inside the text of a module registered under the name
+   a, import names read a/x (C14), and the chain of a/x -- and of a/b/x for the prefix a/b -- contains the file
+   registered for a.  So a module importing itself, its importer, or any module it is nested in at any depth is rejected
+   with the cyclic-dependency error before the file is read *)
+Theorem C15_enclosing_module_is_on_the_chain : forall main_path a x mods f,
+  assoc_text a mods = Some f -> In f (import_chain main_path (a ++ c_slash :: x) mods).
+Proof. exact enclosing_module_is_on_the_chain. Qed.
+Print Assumptions C15_enclosing_module_is_on_the_chain.
+
+Theorem C15_import_of_an_enclosing_module_is_rejected : forall fs cwd main_path a x module_path s1,
+  ends_with module_path module_ext = true ->
+  assoc_text a (ps_mods s1) = Some (same_file_key (module_file_path main_path module_path)) ->
+  import_tail fs cwd main_path (a ++ c_slash :: x) module_path s1 = cyclic_err.
+Proof. exact import_of_an_enclosing_module_is_rejected. Qed.
+Print Assumptions C15_import_of_an_enclosing_module_is_rejected.
+
+Theorem C15_self_import_is_rejected : forall fs cwd main_path a module_path s1 s2 x later module_path2 s3,
+  import_tail fs cwd main_path a module_path s1 = Ok s2 ->
+  ps_mods s3 = later ++ ps_mods s2 -> assoc_text a later = None ->
+  ends_with module_path2 module_ext = true ->
+  same_file_key (module_file_path main_path module_path2) = same_file_key (module_file_path main_path module_path) ->
+  import_tail fs cwd main_path (a ++ c_slash :: x) module_path2 s3 = cyclic_err.
+Proof. exact self_import_is_rejected. Qed.
+Print Assumptions C15_self_import_is_rejected.
